@@ -110,6 +110,9 @@ class SmallBufferAllocator {
     auto& lock = globals.backingStoreLock;
     DISPENSO_VERIF_POINT("BytesCas", &lock);
     while (!lock.compare_exchange_weak(allocId, 1, std::memory_order_acquire)) {
+      // A failed compare_exchange stores the observed value into allocId; the lock may only be
+      // taken when it is free (0), so the expected value has to be reset before retrying.
+      allocId = 0;
       DISPENSO_VERIF_POINT("BytesCas", &lock);
     }
     size_t bytes = kMallocBytes * globals.backingStore.size();
